@@ -3,15 +3,24 @@ from propdefs.common import *
 PROP = {
     "bin": "c12",
     "coq_targets": ["theories/Flow/C12Check", "theories/Flow/RDProofs"],
-    "n": {"quick": 400, "thorough": 12000},
+    "n": {"quick": 320, "thorough": 8000},
     "theorems": ["rd_sound", "rd_precise", "ud_contains_last_writer", "ud_guards_contain_last_writer", "du_inverse"],
     "rule": "random IL functions (1-6 blocks, <=4 instructions each, loops in 2/3, guarded edges, empty blocks, loads/stores, "
             "injected `x = x - 4`, `z = x + y`, `x = x ^ x`, intrinsics with declared/undeclared/multi-scalar effects in 30%, "
-            "unreachable blocks in ~7%), 3 initial states each; non-trivial = >= 4 locations and (multi-read instruction or loop or "
+            "unreachable blocks in ~7%, one name at two widths (a:32 / a:8) in 20%), 3 initial states each, 60 steps; non-trivial = >= 4 locations and (multi-read instruction or loop or "
             "guarded edge or instruction reading its own destination); distinct by function text",
     "trusted_base": [KERNEL, HARNESS_TB],
-    "assumptions": [],
+    "assumptions": ["functions satisfy C15's structural invariant cfg_inv (du_inverse needs nothing)",
+                    "execution = Exec/Sem.v (executing an intrinsic is a fault there, so no trace continues past one)"],
     "partial": [],
-    "level_text": "",
-    "level_note": "",
+    "level_text": "Unbounded Coq theorems over all IL functions satisfying cfg_inv (loops, unreachable and empty blocks, intrinsics), all initial "
+                  "states, all trace lengths: after every executed location the last writer of every scalar is in the reported reaching "
+                  "definitions (rd_sound); every reported assignment/load reaches the location on a path without an intervening assignment/load "
+                  "of the same scalar (rd_precise); the use-def chain of every reached instruction and of every evaluated guard, taken or not, "
+                  "contains the last writer of every scalar read (ud_contains_last_writer, ud_guards_contain_last_writer); def-use is exactly the "
+                  "inverse relation (du_inverse). The engine-solution property (C09) and the forward/backward converse (C18) are discharged, not "
+                  "assumed. The Gallina transcriptions of reaching_definitions/use_def/def_use are tied to the Rust code differentially in the "
+                  "kernel, and the observed maps are re-judged against executions of Exec/Sem.v.",
+    "level_note": "Trusted: Coq kernel + vm_compute; harness/pretty-printer incl. the bit-mask encoding of location sets over Function::locations; "
+                  "the models are hand-written and tied differentially, not by translation.",
 }
